@@ -77,12 +77,15 @@ CHECKS = {
          "registration_wait_ms / rebroadcast_ms and the conflict / question decisions regenerated from hostname.cpp; model vs real Hostname "
          "under virtual time over histories spanning several re-probe cycles; the extracted acceptor judges the implementation traces.",
          "DESIGN.md section 4 (C08)", "Rocq invariant proof over all reachable states of the hostname model + executable acceptor on implementation traces + differential correspondence under virtual time"),
- "C10": ("Theorem C10_srv_targets_registered (Properties_C10.v): in every state of the provider/hostname/prober composite reachable by any "
+ "C10": ("Theorems (Properties_C10.v): C10_srv_targets_registered - in every state of the provider/hostname/prober composite reachable by any "
          "sequence of handler invocations (any message, any timer at any instant, update, destroy) every SRV record in every response "
-         "sent has a target that is empty or a name under which the hostname object actually became registered; no answer before "
-         "confirmation. The other clauses (nothing before registration+update+completed probe, nonzero-TTL records under the confirmed "
-         "name, goodbyes only for announced records) are decided per run by the acceptor mon_provider (codes 10-14).",
-         "DESIGN.md section 4 (C10)", "Rocq invariant proof over all reachable composite states + executable acceptor + differential correspondence under virtual time"),
+         "sent has a target that is empty or a name under which the hostname object actually became registered; C10_mute_until_confirmed "
+         "+ C10_silent_until_confirmed - a provider that is not confirmed sends no response, multicast or unicast; "
+         "C10_only_a_completed_probe_confirms - the confirmed flag is set only by the completion of a pending probe; "
+         "C10_confirmed_means_verified - confirmed => a service was supplied and the SRV proposal has a (registered) target. 'Records "
+         "carry the confirmed name' and 'goodbyes name announced records' follow from the C13 listener invariant; all clauses are also "
+         "decided per run by the acceptor mon_provider (codes 10-14) on implementation traces.",
+         "DESIGN.md section 4 (C10)", "Rocq invariant proofs over all reachable composite states + executable acceptor + differential correspondence under virtual time"),
  "C11": ("Theorem C11_answers (Properties_C11.v): for every provider state and every message, what onMessageReceived sends equals the "
          "declarative specification spec_prov_reply (question matching, known-answer suppression, PTR implies SRV+TXT, single reply, "
          "reply addressing); the matching conditions are regenerated from provider.cpp and Record::operator== is tied to same "
